@@ -21,7 +21,7 @@ RULE = ('cases = one scored mini-batch: a generated string frame (2-8 feature co
         'triplet is recomputed from the frame with an independent coding (rank among sorted distinct strings). Documented heuristic '
         'names are harvested from README/docs/examples/scripts/benchmarks/__main__/task_selftest at run time. distinct = (heuristic, '
         'mode, frame hash); non-trivial = the oracle scores of the batch are not all equal.')
-REQUIRED = {'triplet=heuristic(codes)': 200, 'documented-name-not-degraded': 2, 'label-is-target': 20, 'real-pool-batch': 1}
+REQUIRED = {'scored-frame=input-rows': 50, 'triplet=heuristic(codes)': 200, 'documented-name-not-degraded': 2, 'label-is-target': 20, 'real-pool-batch': 1}
 ASSUMPTIONS = ['values contain no NUL character (pandas merges "\\x00" with "" when categorising) and no None', 'scipy.stats.pearsonr and sklearn adjusted_mutual_info_score are trusted on the oracle\'s own codes (the property is about dispatch, coding and orientation)',
                'non-label pairs may be scored in either orientation (the corrected score is not symmetric)']
 WARM = [{}]
@@ -149,6 +149,16 @@ def shard_frames(sh, part, parts):
             names = rng.sample(pool, min(ncols, len(pool))) + ['f%d' % i for i in range(max(0, ncols - len(pool)))]
             rng.shuffle(names)
         data, cols, classes = gen.string_frame(rng, nprng, n, ncols, label=label, names=names)
+        if rng.random() < 0.3 and len(cols) >= 2:
+            # two different columns that are one-to-one recodings of each other (code / name pairs): not a self pair
+            src = rng.choice([c for c in cols if c != label] or cols)
+            other = rng.choice([c for c in cols if c != src])
+            distinct = sorted(set(data[src]))
+            perm = distinct[:]
+            rng.shuffle(perm)
+            ren = {v: 'nm_%d_%s' % (perm.index(v), 'x' * (perm.index(v) % 3)) for v in distinct}
+            if other != label:
+                data[other] = [ren[v] for v in data[src]]
         int_frame = via == 'mixed_rank_graph' and rng.random() < 0.25
         if int_frame:
             # library use with integer columns (negative values, values >= 2^31, narrow and wide dtypes): scores are still
@@ -189,6 +199,10 @@ def shard_frames(sh, part, parts):
             sh.inconclusive_note('hook on mixed_rank_graph not reached via ' + via)
             continue
         frame, triplets = captured[-1]
+        # the columns that are scored hold the contents of the batch as parsed (no stage may rewrite them on the way)
+        changed = [c for c in cols if c not in frame.columns or frame[c].tolist() != list(data[c])]
+        sh.check('scored-frame=input-rows', not changed, 'batch-contents-rewritten-before-scoring',
+                 lambda: {'via': via, 'columns_changed': changed[:4], 'example': {c: {'input': list(data[c])[:12], 'scored': frame[c].tolist()[:12] if c in frame.columns else None} for c in changed[:2]}})
         nontrivial = check_batch(sh, heuristic, label, frame, triplets, via)
         sh.case((heuristic, mode, core.h64(sorted((c, tuple(v)) for c, v in data.items()))), nontrivial and heuristic != 'Constant', '%s/%s/%s' % (heuristic, 'target-only' if mode == 'True' else 'pairwise', via),
                 sample={'heuristic': heuristic, 'mode': mode, 'via': via, 'rows': n, 'columns': cols, 'alphabets': classes, 'first_row': [data[c][0] for c in cols],
